@@ -1,6 +1,7 @@
 package props
 
 import (
+	"encoding/hex"
 	"fmt"
 	"math/rand"
 	"unicode/utf8"
@@ -58,6 +59,7 @@ func (c05) Gen(tier string, seed int64) []fw.Unit {
 		}
 	}
 	us = append(us, fw.U("c128.alternate", nil, "alternations", 0))
+	us = append(us, fw.U("c128.collide", nil, "hash-collision-pairs", 0))
 	us = append(us, fw.U("c128.digitruns", nil, "digit-runs", 0))
 	us = append(us, fw.U("c128.digitruns", nil, "digit-runs", 1))
 	r := rngFor(seed, "C05")
@@ -80,6 +82,9 @@ func c128Check(c *fw.Ctx, content string, nocs bool) {
 	req := Req{Fam: fam, S: []byte(content), Scheme: -1}
 	inner := req.String()
 	c.Step(func() string { return inner })
+	if c.Res().Evals%9 == 0 {
+		poison(fam, false)
+	}
 	o := req.call()
 	if !wellFormed(c, req.entryName(), inner, &o) {
 		if o.panic == nil && o.err != nil {
@@ -202,6 +207,17 @@ func (p c05) Exec(c *fw.Ctx, u *fw.Unit) {
 			c128Check(c, string(ch), nocs)
 			c128Check(c, "a"+string(ch)+"\x02", nocs)
 			c128Check(c, "12"+string(ch)+"34", nocs)
+		}
+	case "c128.collide":
+		for _, key := range []string{"print/24", "digits/30", "lower/20", "ascii/24", "c39/20"} {
+			for _, hp := range collideData[key] {
+				for _, nocs := range []bool{false, true} {
+					for _, h := range hp {
+						b, _ := hex.DecodeString(h)
+						c128Check(c, string(b), nocs)
+					}
+				}
+			}
 		}
 	case "c128.alternate":
 		// contents that force a code-set change (or shift) at almost every character: the
